@@ -431,12 +431,27 @@ def check_continuation_tests(ctx):
                     isinstance(c.args[0], ast.Constant) and c.args[0].value == '\\':
                 recv = c.func.value
                 # a line of source: subscript of a lines list (`lines[i]`, `self._lines[i]`) or a local bound to one
-                is_line = isinstance(recv, ast.Subscript) and 'lines' in norm(recv.value)
+                def line_list(e):
+                    # `X._lines`, a local bound to it, or a parameter declared as a list of strings (the scanners of common.py)
+                    if isinstance(e, ast.Attribute) and e.attr in ('_lines', 'lines'):
+                        return True
+                    if isinstance(e, ast.Name):
+                        if e.id in lines_locals:
+                            return True
+                        for a_ in fi.node.args.posonlyargs + fi.node.args.args + fi.node.args.kwonlyargs:
+                            if a_.arg == e.id and (a_.annotation is not None and norm(a_.annotation).replace(' ', '') in ('list[str]', 'list[bistr]', 'list[str|bistr]')
+                                                   or 'lines' in e.id):
+                                return True
+                    return False
+                lines_locals = {n.targets[0].id for n in walk_no_nested(fi.node) if isinstance(n, ast.Assign) and len(n.targets) == 1 and
+                                isinstance(n.targets[0], ast.Name) and isinstance(n.value, ast.Attribute) and n.value.attr in ('_lines', 'lines')} | \
+                    {n.target.id for n in walk_no_nested(fi.node) if isinstance(n, ast.NamedExpr) and isinstance(n.value, ast.Attribute) and n.value.attr in ('_lines', 'lines')}
+                is_line = isinstance(recv, ast.Subscript) and line_list(recv.value)
                 if isinstance(recv, ast.Name):
                     for n in walk_no_nested(fi.node):
                         if isinstance(n, (ast.Assign, ast.NamedExpr)):
                             t = n.targets[0] if isinstance(n, ast.Assign) else n.target
-                            if isinstance(t, ast.Name) and t.id == recv.id and isinstance(n.value, ast.Subscript) and 'lines' in norm(n.value.value):
+                            if isinstance(t, ast.Name) and t.id == recv.id and isinstance(n.value, ast.Subscript) and line_list(n.value.value):
                                 is_line = True
                 if not is_line:
                     continue
